@@ -214,7 +214,10 @@ class GraphQLError(Exception):
                     self.__context__ = original_error.__context__
 
         if extensions is None and underlying_error is not None:
-            original_extensions = getattr(underlying_error, "extensions", None)
+            try:
+                original_extensions = underlying_error.extensions  # type: ignore
+            except Exception:  # noqa: BLE001 (an arbitrary property may raise)
+                original_extensions = None
             if isinstance(original_extensions, dict):
                 extensions = original_extensions
         self.extensions = extensions or {}
